@@ -173,10 +173,14 @@ type ReadSchedCase struct {
 	Before  int64  `json:"read_before_deadline"` // the read samples the clock this long before the deadline
 	Past    int64  `json:"sweep_past_deadline"`  // maintenance runs this long after the old deadline
 	Later   int64  `json:"later"`                // judging CleanUp this long after the extended deadline
-	Release int    `json:"release_at"`           // 0 before CleanUp, 1 drain.enter, 2 evictNode.enter
+	Release int    `json:"release_at"`           // 0 before CleanUp, 1 drain.enter, 2 evictNode.enter, 3 the table computation that follows evictNode.enter
 	Others  int    `json:"other_entries"`
 	Bound   int    `json:"maximum_size"`
 	Reader  int    `json:"read_kind"` // 0 GetIfPresent 1 GetEntry 2 Compute(cancel) 3 SetIfAbsent(present) 4 SetExpiresAfter
+	// SizeEvict: the maintenance at the racing instant is a size eviction (SetMaximum(0)) instead of the
+	// timer sweep: the clock has passed the deadline but not the next tick, so the wheel does not expire
+	// the entry - the eviction policy picks the expired, not yet swept entry as its victim.
+	SizeEvict bool `json:"size_eviction,omitempty"`
 }
 
 var schedSites = sync.OnceValue(func() map[string]int {
@@ -259,19 +263,36 @@ func runReadSched(sc *ReadSchedCase) (violation string) {
 	switch sc.Release {
 	case 1:
 		site = schedSites()["drain.enter"]
-	case 2:
+	case 2, 3:
 		site = schedSites()["evictNode.enter"]
 	}
-	if site < 0 {
+	switch {
+	case site < 0:
 		release()
-	} else {
+	case sc.Release == 3:
+		// between the decision taken in evictNode and the re-check under the bucket lock: the first
+		// table computation that begins after evictNode was entered
+		tableLoaded := schedSites()["map.compute.tableLoaded"]
+		var armed atomic.Bool
+		otter.VerifSetHook(func(s int) {
+			if s == site {
+				armed.Store(true)
+			} else if s == tableLoaded && armed.Load() {
+				release()
+			}
+		})
+	default:
 		otter.VerifSetHook(func(s int) {
 			if s == site {
 				release()
 			}
 		})
 	}
-	c.CleanUp()
+	if sc.SizeEvict {
+		c.SetMaximum(0)
+	} else {
+		c.CleanUp()
+	}
 	otter.VerifSetHook(nil)
 	release()
 	select {
@@ -318,16 +339,16 @@ func runReadSched(sc *ReadSchedCase) (violation string) {
 // buffered lossily, so some are dropped, and the sweep itself must re-file such timers. The clock
 // then moves on in small steps with a CleanUp at each; the C13 rule is applied at every CleanUp.
 type ExtendCase struct {
-	Engine   string `json:"engine"`
-	Seed     uint64 `json:"seed"`
-	Index    int    `json:"index"`
-	Keys     int    `json:"keys"`
-	TTL1     int64  `json:"ttl"`
-	TTL2     int64  `json:"extended_ttl"`
-	Access   bool   `json:"access_reset_policy"` // extension by reads instead of SetExpiresAfter
-	Step     int64  `json:"clock_step"`
-	Bound    int    `json:"maximum_size"`
-	Rounds   int    `json:"extension_rounds"`
+	Engine string `json:"engine"`
+	Seed   uint64 `json:"seed"`
+	Index  int    `json:"index"`
+	Keys   int    `json:"keys"`
+	TTL1   int64  `json:"ttl"`
+	TTL2   int64  `json:"extended_ttl"`
+	Access bool   `json:"access_reset_policy"` // extension by reads instead of SetExpiresAfter
+	Step   int64  `json:"clock_step"`
+	Bound  int    `json:"maximum_size"`
+	Rounds int    `json:"extension_rounds"`
 }
 
 func runExtend(ec *ExtendCase) (violation string, judged int) {
@@ -495,11 +516,21 @@ func RunReadSched(col *core.Collector, tier string, seed uint64, shard, nshards 
 		sc.Before = 1 + r.Int63()%2_000_000_000
 		sc.Past = []int64{1, tickNanos / 2, tickNanos + 1, 3 * tickNanos}[r.Intn(4)] + r.Int63()%1000
 		sc.Later = tickNanos*int64(2+r.Intn(100)) + 1
-		sc.Release = r.Intn(3)
+		sc.Release = r.Intn(4)
 		sc.Others = r.Intn(4)
 		sc.Reader = r.Intn(5)
 		if r.Chance(1, 3) {
 			sc.Bound = 10 + r.Intn(100)
+		}
+		if r.Chance(1, 4) {
+			// size eviction of the expired, not yet swept entry: deadline and racing instant within one tick
+			sc.SizeEvict = true
+			sc.Bound = 10 + r.Intn(100)
+			sc.Origin = sc.Origin&^(tickNanos-1) + 10
+			sc.TTL = int64(1000 + r.Intn(1<<28))
+			sc.Before = 1 + r.Int63()%(sc.TTL/2)
+			sc.Past = r.Int63() % 1000
+			sc.Others = 0 // the expired entry is the only possible victim
 		}
 		v := runReadSched(sc)
 		col.Eval(1)
@@ -540,10 +571,12 @@ func ReplayReadSched(col *core.Collector, data []byte, path string) error {
 }
 
 // SweepRaceCase: two more ways in which a write can race with the sweep.
-//   Kind 0: a burst of writes larger than the write buffer while the executor runs nothing: the writers
-//           that find the buffer full apply their own event; later the clock passes every deadline.
-//   Kind 1: several entries have expired; while the sweep is removing the first of them (yield point
-//           evictNode.enter) another goroutine invalidates one of the expired entries.
+//
+//	Kind 0: a burst of writes larger than the write buffer while the executor runs nothing: the writers
+//	        that find the buffer full apply their own event; later the clock passes every deadline.
+//	Kind 1: several entries have expired; while the sweep is removing the first of them (yield point
+//	        evictNode.enter) another goroutine invalidates one of the expired entries.
+//
 // Afterwards a CleanUp more than a tick past every deadline must find nothing counted, and every entry
 // must have been reported exactly once.
 type SweepRaceCase struct {
